@@ -205,6 +205,23 @@ func (s *nhSM) restore(r io.Reader) (uint64, error) {
 	return st.Applied, nil
 }
 
+
+// statemachine.IExtended: the no-allocation lookup (NodeHost.NAReadLocalNode). For the contract it is a Lookup.
+func naLookup(look func(interface{}) (interface{}, error), q []byte) ([]byte, error) {
+	var qq nhQuery
+	if err := json.Unmarshal(q, &qq); err != nil {
+		return nil, err
+	}
+	a, err := look(qq)
+	if err != nil {
+		return nil, err
+	}
+	return json.Marshal(a)
+}
+func (s *nhRegularSM) NALookup(q []byte) ([]byte, error)    { return naLookup(s.Lookup, q) }
+func (s *nhConcurrentSM) NALookup(q []byte) ([]byte, error) { return naLookup(s.Lookup, q) }
+func (s *nhOnDiskSM) NALookup(q []byte) ([]byte, error)     { return naLookup(s.Lookup, q) }
+
 // ---------------------------------------------------------------------------- regular
 
 type nhRegularSM struct{ *nhSM }
